@@ -26,7 +26,7 @@ Print Assumptions C10_exactly_once.
 Theorem C10_no_second_outcome : forall c sid es st o es1 reg alive es2,
   snd (crun c sid (st, Done o) es) = Done o /\
   (expect sid reg alive es1 = Done o -> expect sid reg alive (es1 ++ es2) = Done o).
-Proof. intros. split; [apply crun_done | apply expect_done_stable]. Qed.
+Proof. exact no_second_outcome. Qed.
 Print Assumptions C10_no_second_outcome.
 
 (* the hypotheses of C10_exactly_once hold right after open_stream on a live session for a fresh id *)
